@@ -23,6 +23,7 @@ func IndexTable(db objects.Store, tblSum []byte, tbl *objects.Table, logger logr
 		err       error
 		bb        []byte
 		blkIdxSum []byte
+		rowsCount uint32
 	)
 	logger = logger.WithName("IndexTable")
 	logger.Info("indexing table", "sum", tblSum)
@@ -44,6 +45,10 @@ func IndexTable(db objects.Store, tblSum []byte, tbl *objects.Table, logger logr
 		if len(blk) == 0 {
 			return fmt.Errorf("block %x has no rows", sum)
 		}
+		if len(blk) > objects.BlockSize || (i < len(tbl.Blocks)-1 && len(blk) != objects.BlockSize) {
+			return fmt.Errorf("block %x at offset %d has %d rows", sum, i, len(blk))
+		}
+		rowsCount += uint32(len(blk))
 		for _, row := range blk {
 			if len(row) != nCols {
 				return fmt.Errorf("block %x has a row of %d cells, table has %d columns", sum, len(row), nCols)
@@ -72,6 +77,9 @@ func IndexTable(db objects.Store, tblSum []byte, tbl *objects.Table, logger logr
 		if !bytes.Equal(blkIdxSum, tbl.BlockIndices[i]) {
 			return fmt.Errorf("block index at offset %d has different sum: %x != %x", i, blkIdxSum, tbl.BlockIndices[i])
 		}
+	}
+	if rowsCount != tbl.RowsCount {
+		return fmt.Errorf("table records %d rows but its blocks hold %d", tbl.RowsCount, rowsCount)
 	}
 	buf.Reset()
 	_, err = objects.WriteBlockTo(enc, buf, tblIdx)
